@@ -3,6 +3,7 @@ import RR.Proof.HdlcRoundtrip
 import RR.Proof.HdlcResync
 import RR.Proof.HdlcCrcDetect
 import RR.Proof.HdlcFix
+import RR.Proof.HdlcCrcMixed
 
 /-!
 # C13 — HDLC deframer: every valid frame is recovered, nothing invalid is emitted
@@ -164,6 +165,17 @@ theorem c13_two_bits_detected (pre mid rest : List Nat) (b1 j1 b2 j2 : Nat)
     (j1 ≠ j2 → crcBitwise (pre ++ (b1 ^^^ 2 ^ j1 ^^^ 2 ^ j2) :: rest) ≠ crcBitwise (pre ++ b1 :: rest)) :=
   ⟨crc_two_bits pre mid rest b1 j1 b2 j2 hpre hmid hrest hb1 hb2 hj1 hj2 (by omega),
    fun h => crc_two_bits_same_byte pre rest b1 j1 j2 hpre hrest hb1 hj1 hj2 h⟩
+
+/-- Corruptions touching the checksum field: one flipped data bit together with one flipped bit
+of the received checksum never verifies, and a corrupted checksum alone never verifies —
+with `c13_single_bit_detected` and `c13_two_bits_detected`: **no frame with one or two
+corrupted bits anywhere (data or checksum) passes the CRC gate.** -/
+theorem c13_checksum_field_errors (pre rest : List Nat) (b j k : Nat) (hpre : ∀ x ∈ pre, x < 256)
+    (hrest : ∀ x ∈ rest, x < 256) (hb : b < 256) (hj : j < 8) (hk : k < 16) (hlen : rest.length + 1 < 4094)
+    (e : Nat) (he : e ≠ 0) :
+    crcBitwise (pre ++ (b ^^^ 2 ^ j) :: rest) ≠ crcBitwise (pre ++ b :: rest) ^^^ 2 ^ k ∧
+    crcBitwise (pre ++ b :: rest) ≠ crcBitwise (pre ++ b :: rest) ^^^ e :=
+  ⟨crc_data_and_fcs_bit pre rest b j k hpre hrest hb hj hk hlen, fun h => fcs_only _ e he h.symm⟩
 
 /-- **Single-bit repair returns the original.** With bit fixing enabled and exactly one data bit
 flipped, `find_right_crc` finds that bit and no other (any other single flip would be an undetected
